@@ -22,6 +22,15 @@ for n in names:
         if l.startswith("== %s exit" % pid):
             ex = int(l.split()[-1])
     lines = [l[:400] for l in out if l.startswith(("VIOLATION", "  obligation", "UNDECIDED", "OK ", "DEGRADED", "KNOWN", "patch does not apply", "(applied"))]
+    if ex is None:
+        # the patch was written against an earlier head (before a `fix:` commit moved the code) and does not
+        # apply any more: keep what was recorded when it did
+        meta["applies_at_head"] = False
+        meta["rechecked_at_head"] = {"repo": head, "verif": vhead}
+        json.dump(meta, open(mp, "w"), indent=1)
+        print(n, "patch does not apply at", head, "(kept the recorded result)", flush=True)
+        continue
+    meta["applies_at_head"] = True
     meta["checks"] = {pid: {"exit": ex, "output": lines[:8]}}
     meta["caught"] = (ex == 1)
     meta["rechecked_at_head"] = {"repo": head, "verif": vhead}
